@@ -272,7 +272,9 @@ XFixed == <<"(1 + 2) * 3 - len(\"ab\")", "1 + 2 == 3 && \"a\" < \"b\" ? 10 : 20"
             "undefined.x", "[1][0][0]", "len([1, 2]) + len(\"ab\")", "int(\"12\") + 1", "string(1) + string('a')", "-(-(1))", "!!1", "!(1 > 2)", "1 << 2 >> 1",
             "7 % 0", "7u % 0u", "1 << -1", "\"a\" * 2", "'a' + 1", "'a' - 'b'", "1 / 2.0", "5 / 2", "-7 / 2", "-7 % 3", "1 - 2u", "3u - 5", "0.1 + 0.2", "1e308 * 10.0",
             "9223372036854775807 + 1", "-9223372036854775807 - 2", "1 << 63", "1 << 64", "255u << 60", "'a' < 98", "\"a\" + 1", "\"a\" + 1.5", "\"a\" + 'b'", "[1] + [2]", "[1] + 2",
-            "{a: 1} == {a: 1}", "[1, 2] == [1, 2]", "[1] == [1.0]", "undefined == false", "1 == 1.0", "1 == 1u", "'a' == 97", "\"1\" == 1", "true == 1", "true + true", "true && \"x\"", "0 || \"\" || 'a'">>
+            "{a: 1} == {a: 1}", "[1, 2] == [1, 2]", "[1] == [1.0]", "undefined == false", "1 == 1.0", "1 == 1u", "'a' == 97", "\"1\" == 1", "true == 1", "true + true", "true && \"x\"", "0 || \"\" || 'a'",
+            \* zero and negative zero in one constant pool
+            "[0.0, -0.0]", "[-0.0, 0.0]", "sprintf(\"%v %v %v\", 0.0, -0.0, 0.0 * -1.0)", "1.0 / -0.0 < 0.0 ? \"neg\" : \"pos\"", "[0.0, 1.0 / (0.0 * -1.0)]">>
 XExpr(c) == CASE c.k = "un"    -> XUnOps[c.a] \o " " \o XLits[c.b]
               [] c.k = "call1" -> XCalls1[c.a] \o "(" \o XLits[c.b] \o ")"
               [] c.k = "call2" -> XCalls2[c.a] \o "(" \o XLits[c.b] \o ", " \o XLits[c.d] \o ")"
